@@ -128,6 +128,8 @@ pub struct Outcome {
     pub max_depth: usize,
     pub closed: bool,
     pub cap_hit: Option<String>,
+    /// the scope's own depth bound was reached (the space "all histories up to that depth" was enumerated completely)
+    pub depth_bound_reached: Option<usize>,
     pub last_full_level: usize,
     pub violations: Vec<Found>,
     pub foreign: std::collections::BTreeMap<String, u64>,
@@ -164,7 +166,9 @@ thread_local! { static CUR_PROBE: std::cell::Cell<Option<usize>> = const { std::
 fn execute<S: Sys, T>(sc: &Scope, hist: &[Op], verify_last: bool, f: impl FnOnce(S) -> Result<T, Viol>) -> Result<T, Viol> {
     crate::crash::note(sc.name, hist, CUR_PROBE.with(|p| p.get()));
     fresh_window();
-    let res = (|| {
+    // a panic that escapes outside a guarded subject call (e.g. from a Metrics getter the monitors
+    // call) is a violation at this history, not a dead worker
+    let res = std::panic::catch_unwind(std::panic::AssertUnwindSafe(|| {
         let mut s = S::create(sc);
         s.set_verify(false);
         for (i, op) in hist.iter().enumerate() {
@@ -177,7 +181,8 @@ fn execute<S: Sys, T>(sc: &Scope, hist: &[Op], verify_last: bool, f: impl FnOnce
         }
         s.set_verify(true);
         f(s)
-    })();
+    }))
+    .unwrap_or_else(|p| Err(Viol::new("api.panic", format!("panic outside a guarded call (observer or constructor): {}", crate::wops::panic_msg(&p)))));
     let rep = close_window();
     let res = res?;
     if !rep.errors.is_empty() {
@@ -283,7 +288,7 @@ pub fn explore<S: Sys>(sc: &Scope, prop: &str, probes: &Probes, lim: &Limits) ->
 
     while !frontier.is_empty() {
         if sc.max_depth != 0 && depth >= sc.max_depth {
-            out.cap_hit = Some(format!("depth bound {} of scope {}", sc.max_depth, sc.name));
+            out.depth_bound_reached = Some(sc.max_depth);
             break;
         }
         out.level_sizes.push(frontier.len() as u64);
@@ -502,6 +507,10 @@ pub fn outcome_json(o: &Outcome) -> J {
         .with("closed", o.closed)
         .with("cap_hit", match &o.cap_hit {
             Some(s) => J::Str(s.clone()),
+            None => J::Null,
+        })
+        .with("depth_bound_reached", match o.depth_bound_reached {
+            Some(d) => J::Int(d as i64),
             None => J::Null,
         })
         .with("last_fully_expanded_level", o.last_full_level)
